@@ -3,7 +3,7 @@
 // ASSUME: operation KIND is enumerated as separate solver queries (vf_param); keys, values and iterator positions are solver variables
 // ASSUME: at(k) for an absent key must throw (as std::map::at): checked by declaring the throw path a cut and asserting that the call does not return
 // ASSUME: upper_bound()/equal_range() and operator==/operator< are not exercised: they do not compile for flat_map<int,int> (comparator called with (key, pair); private member access from a non-friend) -- reported, not encodable
-// OB: ob_flatmap_step tier=quick unwind=8 timeout=180 params=13,3,2 bounds="flat_map<int,int>: arbitrary strictly sorted pre-state of n=p1 in 0..2 pairs with spare capacity 0 or 2 (p2), ONE op of 13 kinds {insert(pair), emplace, [] const&, [] &&, erase(key), erase(iterator), erase(range), at (+const), clear, copy construct/assign + const traversal, move construct/assign, swap, insert(range of 2; n=0 only)}; then size/empty, forward+reverse traversal, find/count/lower_bound (+const) of a symbolic key" desc="flat_map: one step from an arbitrary sorted state equals a sorted-array map model"
+// OB: ob_flatmap_step quick_limit=24 tier=quick unwind=8 timeout=180 params=13,3,2 bounds="flat_map<int,int>: arbitrary strictly sorted pre-state of n=p1 in 0..2 pairs with spare capacity 0 or 2 (p2), ONE op of 13 kinds {insert(pair), emplace, [] const&, [] &&, erase(key), erase(iterator), erase(range), at (+const), clear, copy construct/assign + const traversal, move construct/assign, swap, insert(range of 2; n=0 only)}; then size/empty, forward+reverse traversal, find/count/lower_bound (+const) of a symbolic key" desc="flat_map: one step from an arbitrary sorted state equals a sorted-array map model"
 // OB: ob_flatmap_step_big tier=thorough unwind=8 timeout=300 params=12,2,2 bounds="as ob_flatmap_step with n=3+p1 in {3,4}, 12 kinds (without insert(range))" desc="flat_map: one step from an arbitrary sorted state equals a sorted-array map model (larger states)"
 // OB: ob_flatmap_range_ctor tier=quick unwind=8 timeout=180 params=4 bounds="flat_map<int,int>(first,last) from an array of p0 in 0..3 pairs with symbolic keys (duplicates allowed)" desc="flat_map: range constructor equals std::map's (one entry per distinct key)"
 #include "vf.h"
